@@ -160,7 +160,8 @@ def extract_model(loader_cls, mid):
              'qtags': ['seq'], 'mtags': ['map'], 'oddkeys': [],
              'family': 'trace', 'note': '', 'qn': 1, 'tn': 1, 'strs': [],
              'dump': False, 'qo': 1, 'to': 1, 'an': 1, 'rootk': '',
-             'nodup': False, 'aliask': [], 'cyc': False, 'rtypes': []}
+             'nodup': False, 'aliask': [], 'cyc': False, 'rtypes': [],
+             'qcap': 0}
     return model, dt, names
 
 
